@@ -986,6 +986,10 @@ func (ec *evalCtx) resolveType(t *CType) (types.Type, error) {
 		return types.NewMap(k, e), nil
 	}
 	name := t.Name
+	if name == "any" {
+		// the alias and the literal must name the same type tag
+		return types.NewInterfaceType(nil, nil), nil
+	}
 	if i := strings.LastIndex(name, "."); i >= 0 {
 		q, n := name[:i], name[i+1:]
 		p := ec.importedPkg(q)
@@ -1075,6 +1079,29 @@ func (ec *evalCtx) call(x *CCall) (TV, error) {
 				return TV{}, fmt.Errorf("typeOf needs an interface value")
 			}
 			return TV{T: ifTag(v.T), Tag: true, Ty: types.Typ[types.Int]}, nil
+		case "visited":
+			// visited(K, key): the range over a map that is loop K has already yielded this key
+			if len(x.Args) != 2 || ec.fr == nil {
+				return TV{}, fmt.Errorf("visited(loopOrdinal, key)")
+			}
+			ord, err := ec.eval(x.Args[0])
+			if err != nil || ord.Const == nil {
+				return TV{}, fmt.Errorf("visited: the first argument is the loop ordinal (an integer literal)")
+			}
+			k, err := ec.eval(x.Args[1])
+			if err != nil {
+				return TV{}, err
+			}
+			key := fmt.Sprintf("MS:loop%s@%d", ord.Const.String(), ec.fr.frameID)
+			if !ec.st.has(key) {
+				// the range has not started on this path: nothing visited
+				return TV{T: tFalse, Ty: types.Typ[types.Bool]}, nil
+			}
+			seen := c.get(ec.st, key)
+			if k.Const != nil {
+				k = ec.concretise(k, types.Typ[types.String])
+			}
+			return TV{T: sel(seen, k.T, SBool), Ty: types.Typ[types.Bool]}, nil
 		case "implements":
 			// implements(v, I): the dynamic type of the interface value v implements interface type I -
 			// the predicate a type switch / comma-ok assertion to I decides (execTypeAssert)
